@@ -96,6 +96,17 @@ public:
   template<typename T = void> void* impl_internal_lookup_symbol(const char*) { return nullptr; }
 };
 
+// Variant of the kind that cannot tell the owning sandbox from an address alone (like the lucet plugin): the same-sandbox query
+// takes the core's finder as a third argument, which selects the other arm of rlbox_sandbox::is_in_same_sandbox.
+class vsbx_f3 : public vsbx
+{
+public:
+  static inline bool impl_is_in_same_sandbox(const void* a, const void* b, vsbx_f3* (*)(const void*))
+  {
+    return which(a) == which(b);
+  }
+};
+
 // Variant that can move buffers in and out of the sandbox without copying (can_grant_deny_access): exercises the native
 // paths of copy_memory_or_grant_access / copy_memory_or_deny_access.
 class vsbx_gd : public vsbx
